@@ -91,6 +91,7 @@ func C17Child(specPath, out string) int {
 		fmt.Fprintln(os.Stderr, err)
 		return 3
 	}
+	chain.ShadowRuns = os.Getenv("VERIF_C17_SHADOW") != ""
 	var lines, fulls []string
 	chain.Recorder = func(l, full string) { lines = append(lines, l); fulls = append(fulls, full) }
 	note := func(l string) { lines = append(lines, l); fulls = append(fulls, "") }
@@ -210,6 +211,11 @@ func runC17(cs core.Case, verbose bool) core.CaseResult {
 		out := filepath.Join(tmp, fmt.Sprintf("trace%d.txt", i))
 		cmd := exec.Command(self, "-c17child", specPath, "-out", out)
 		cmd.Env = append(os.Environ(), envs[i%len(envs)]...)
+		if i%2 == 1 {
+			// odd replicas dry-run every operation on a discarded copy first (a node that served a
+			// simulation / CheckTx of it): process-local caches must not change the real execution
+			cmd.Env = append(cmd.Env, "VERIF_C17_SHADOW=1")
+		}
 		if b, err := cmd.CombinedOutput(); err != nil {
 			res.Inconclusive = fmt.Sprintf("replica %d failed: %v %s", i, err, short(string(b)))
 			return res
@@ -259,7 +265,7 @@ func runC17(cs core.Case, verbose bool) core.CaseResult {
 			}
 			where, detail := c17Pinpoint(filepath.Join(tmp, "trace0.txt.full"), filepath.Join(tmp, fmt.Sprintf("trace%d.txt.full", i)), j, a[j], b[j])
 			res.Violate("C17/divergence/"+where, "history %s: replica 0 (%v) and replica %d (%v) diverge at trace line %d of %d (%s):\n  A: %s\n  B: %s\n  after: %s", what, envs[0], i, envs[i%len(envs)], j, len(a), detail, a[j], b[j], ctx)
-			if !strings.HasPrefix(where, "event-attribute/") && where != "error-text" {
+			if !strings.HasPrefix(where, "event-attribute/") && where != "error-text" && where != "gas" {
 				break
 			}
 		}
@@ -287,7 +293,7 @@ func c17Pinpoint(fa, fb string, line int, la, lb string) (where, detail string) 
 		}
 		return ""
 	}
-	for _, k := range []string{"apphash", "h", "ok", "valupdates", "txresults"} {
+	for _, k := range []string{"apphash", "h", "ok", "gas", "valupdates", "txresults"} {
 		if field(la, k) != field(lb, k) {
 			return k, k + " differs"
 		}
